@@ -149,6 +149,30 @@ for _c in SEQ:
                 raise PanicEdge('panic', 'removal index out of bounds')
             v = hl.items.pop(a[1]); return some(v) if c == 'VecDeque' else v
 
+        @path(f'{c}::retain', f'{c}::retain_mut')
+        def _(vm, a, ci):
+            hl, hr = seq(vm, a[0]); keep = []
+            for i, x in enumerate(list(hl.items)):
+                if truth(vm, vm.call_value(a[1], [Ref(hr.cell, hr.path + (i,))])): keep.append(hl.items[i])
+                else: vm.drop_val(hl.items[i])
+            hl.items[:] = keep; return UNIT
+
+        @path(f'{c}::split_off')
+        def _(vm, a, ci):
+            hl = seq(vm, a[0])[0]; k = a[1]
+            if not isinstance(k, int): raise Unmodelled('split_off with a symbolic index')
+            if k > len(hl.items): raise PanicEdge('panic', 'split_off: at > len')
+            tail = hl.items[k:]; del hl.items[k:]
+            return Adt(c, 0, [HList(tail)])
+
+        @path(f'{c}::dedup')
+        def _(vm, a, ci):
+            hl = seq(vm, a[0])[0]; out = []
+            for x in hl.items:
+                if out and truth(vm, values_eq(vm, tyarg(ci) or '', out[-1], x)): vm.drop_val(x)
+                else: out.append(x)
+            hl.items[:] = out; return UNIT
+
         @path(f'{c}::swap_remove')
         def _(vm, a, ci):
             hl = seq(vm, a[0])[0]
@@ -386,6 +410,21 @@ for _c in ('HashMap', 'BTreeMap', 'HashSet', 'BTreeSet'):
                 if i is not None: return False
                 hm.entries.append([a[1], UNIT]); return True
             return hmap_insert(vm, hm, tyarg(ci), a[1], a[2])
+
+        @path(f'{c}::retain')
+        def _(vm, a, ci):
+            hm = hmref(vm, a[0]); r = a[0]; keep = []
+            for i, e in enumerate(list(hm.entries)):
+                args = [Ref(r.cell, r.path + (('e', i, 0),))] + ([] if isset else [Ref(r.cell, r.path + (('e', i, 1),))])
+                if truth(vm, vm.call_value(a[1], args)): keep.append(e)
+            hm.entries[:] = keep; return UNIT
+
+        @path(f'{c}::remove_entry')
+        def _(vm, a, ci):
+            hm = hmref(vm, a[0]); q = ci.fnargs[0] if ci.fnargs else None
+            i = hmap_find(vm, hm, tyarg(ci), a[1], q)
+            if i is None: return NONE()
+            e = hm.entries.pop(i); return some(tup(e[0], e[1]))
 
         @path(f'{c}::get', f'{c}::get_mut', f'{c}::contains_key', f'{c}::contains', f'{c}::remove', f'{c}::get_key_value')
         def _(vm, a, ci):
